@@ -26,6 +26,10 @@ def ty_range(ty):
     if not ty:
         return (-INF, INF)
     ty = ty.strip()
+    while ty.startswith('&'):
+        ty = ty[1:].strip()
+        if ty.startswith('mut '):
+            ty = ty[4:].strip()
     return TYR.get(ty, (-INF, INF))
 
 
@@ -427,6 +431,86 @@ class FnAnalysis:
         return r
 
     # ---------------------------------------------------------------- lengths
+    # ---------------------------------------------------------------- relational (difference) bounds
+    def linform(self, e, depth=0):
+        """e as a linear form {atom canon: coef} + const over the integers (atoms: anything that is not +/- of a constant)"""
+        e = strip(e)
+        v = const_int(e)
+        if v is not None:
+            return {}, v
+        if e.k == 'field' and e.name == '0' and e.args:
+            b = strip(e.args[0])
+            if b.k == 'binop' and b.name in ('AddWithOverflow', 'SubWithOverflow'):
+                e = b
+        if e.k == 'binop' and e.name in ('AddWithOverflow', 'SubWithOverflow', 'Add', 'Sub') and len(e.args) == 2 and depth < 12:
+            a, ca = self.linform(e.args[0], depth + 1)
+            b, cb = self.linform(e.args[1], depth + 1)
+            sg = 1 if e.name.startswith('Add') else -1
+            out = dict(a)
+            for k_, v_ in b.items():
+                out[k_] = out.get(k_, 0) + sg * v_
+                if out[k_] == 0:
+                    del out[k_]
+            return out, ca + sg * cb
+        if e.k == 'unop' and e.name == 'PtrMetadata' and e.args:
+            return {'len(%s)' % self.cn.c(e.args[0]): 1}, 0
+        return {self.cn.c(e): 1}, 0
+
+    def diff_lower(self, x, y, block):
+        """a lower bound of x - y at `block`, from constants and from dominating comparisons A op B
+        (sound: only guards that dominate the block with a single leading edge are used); None if unknown"""
+        a, ca = self.linform(x)
+        b, cb = self.linform(y)
+        d = dict(a)
+        for k_, v_ in b.items():
+            d[k_] = d.get(k_, 0) - v_
+            if d[k_] == 0:
+                del d[k_]
+        c = ca - cb
+        if not d:
+            return c
+        best = None
+        for p, truth in self.guards(block):
+            if p.kind != 'cmp' or len(p.args) != 2:
+                continue
+            o = p.op if truth else G.NEGOP[p.op]
+            ga, gca = self.linform(p.args[0])
+            gb, gcb = self.linform(p.args[1])
+            g = dict(ga)
+            for k_, v_ in gb.items():
+                g[k_] = g.get(k_, 0) - v_
+                if g[k_] == 0:
+                    del g[k_]
+            gc = gca - gcb
+            # guard says  g + gc  o  0
+            if o in ('Gt', 'Ge') and g == d:
+                lb = (1 if o == 'Gt' else 0) - gc   # g >= lb
+                cand = lb + c
+            elif o in ('Lt', 'Le') and {k_: -v_ for k_, v_ in g.items()} == d:
+                ub = (-1 if o == 'Lt' else 0) - gc  # g <= ub  =>  -g >= -ub
+                cand = -ub + c
+            else:
+                continue
+            best = cand if best is None else max(best, cand)
+        return best
+
+    def slice_len_lower(self, e, block):
+        """lower bound of the length of a slice expression base[a..b] / base[a..] using diff_lower"""
+        e = strip(e)
+        if e.k == 'call' and last(e.name) in ('index', 'index_mut') and len(e.args) == 2:
+            r = strip(e.args[1])
+            base = strip(e.args[0])
+            ln = E('call', 'len', [base], ty='usize')
+            if r.k == 'aggr' and r.name == 'Range::Range':
+                return self.diff_lower(r.args[1], r.args[0], block)
+            if r.k == 'aggr' and r.name == 'RangeFrom::RangeFrom':
+                return self.diff_lower(ln, r.args[0], block)
+        if e.k == 'phi':
+            rs = [self.slice_len_lower(a, block) for a in e.args]
+            return None if any(x is None for x in rs) else min(rs)
+        lo = self.length(e, block)[0]
+        return lo
+
     def length(self, e, block, depth=0):
         """interval of the length of a slice / Vec / array expression"""
         e0 = e
@@ -468,6 +552,15 @@ class FnAnalysis:
             # precondition already established for this function
             if e.name in self.need:
                 lo = max(lo, self.need[e.name])
+            # divisibility lemma: len >= 1 and len % K == 0 (dominating guard) ==> len >= K
+            for p, truth in self.guards(block):
+                if p.kind == 'eq' and len(p.args) == 2 and truth:
+                    for (x, c) in ((p.args[0], p.args[1]), (p.args[1], p.args[0])):
+                        xs = strip(x)
+                        if const_int(c) == 0 and xs.k == 'binop' and xs.name == 'Rem' and len(xs.args) == 2 \
+                                and self.cn.c(xs.args[0]) == key and (const_int(xs.args[1]) or 0) > 0 and lo >= 1:
+                            kk = const_int(xs.args[1])
+                            lo = max(lo, kk)
             return (lo, hi)
         if e.k == 'aggr' and e.name == 'array':
             return (len(e.args), len(e.args))
